@@ -267,7 +267,7 @@ class Exec:
                 comps.append(SliceSeqV.fresh(f"{base}.{i}!{self.nfresh}", n))
             return TupSeqV(n, comps)
         if ty.startswith("rows:"):
-            return self.fresh_rows(int(ty[5:]), base)
+            return self.fresh_rows(rows_kinds(ty), base)
         if ty == "nan":
             return NanV()
         if ty == "str":
@@ -292,20 +292,20 @@ class Exec:
             return o
         raise Unsupported(f"unknown type {ty!r}")
 
-    def fresh_rows(self, arity, base, kind="list"):
+    def fresh_rows(self, kinds, base, kind="list"):
         comps = []
-        for i in range(arity):
+        for i in range(sum(RowsV.WIDTH[k] for k in kinds)):
             self.nfresh += 1
             c = z3.Const(f"{base}.{i}!{self.nfresh}", S.SeqSort)
             if comps:
                 # all columns have one length: a definitional fact attached to the column's own term
                 self.ctx.defs.append(S.f_len(c) == S.f_len(comps[0]), (c,))
             comps.append(c)
-        return RowsV(comps, kind)
+        return RowsV(comps, kind, kinds)
 
     def havoc_like(self, v, base):
         if isinstance(v, RowsV):
-            return self.fresh_rows(len(v.comps), base, v.kind)
+            return self.fresh_rows(v.kinds, base, v.kind)
         if isinstance(v, Opt):
             if v.definite():
                 return I(self.fresh_int(base))
@@ -598,8 +598,11 @@ class Exec:
     def mutating_method(self, base, attr, args, st, node):
         if attr == "append" and isinstance(base, SeqV) and (isinstance(args[0], (Opt, BoolV)) or not base.t.eq(S.c_empty)):
             return SeqV(S.f_append(base.t, S.as_int(self.need_int(args[0], st, node))), base.kind)
-        if attr == "append" and isinstance(base, RowsV) and isinstance(args[0], TupV) and len(args[0].items) == len(base.comps):
-            return RowsV([S.f_append(c, S.as_int(self.need_int(x, st, node))) for c, x in zip(base.comps, args[0].items)], base.kind)
+        if attr == "append" and isinstance(base, RowsV) and isinstance(args[0], TupV):
+            cells = base.cells_of(args[0].items)
+            if cells is None:
+                raise Unsupported(f"row {args[0]!r} does not fit the declared columns {base.kinds} line {node.lineno}")
+            return RowsV([S.f_append(c, x) for c, x in zip(base.comps, cells)], base.kind, base.kinds)
         if attr == "append" and isinstance(base, TupV) and base.kind == "list":
             return TupV(base.items + [args[0]], "list")
         if attr == "append" and isinstance(base, SeqV) and base.kind == "list" and base.t.eq(S.c_empty) \
@@ -684,7 +687,8 @@ class Exec:
             elif ty == "lseq" and isinstance(v, TupV) and v.kind == "list":
                 v = SeqV(self.to_seq(v), "list")  # a list literal of ints that a loop will grow: symbolic int list
             elif ty and ty.startswith("rows:") and isinstance(v, SeqV) and v.kind == "list" and v.t.eq(S.c_empty):
-                v = RowsV.empty(int(ty[5:]))      # an empty list literal that will hold fixed-arity int tuples
+                kinds = rows_kinds(ty)
+                v = RowsV.empty(len(kinds), kinds=kinds)  # an empty list literal that will hold fixed-arity tuples
             st.env[tgt.id] = v
         elif isinstance(tgt, (ast.Tuple, ast.List)):
             items = self.unpack(v, len(tgt.elts), st, node)
@@ -898,9 +902,9 @@ class Exec:
                 return a
             return self.seq_ite(c, a.t, b.t, a.kind)
         if isinstance(a, RowsV):
-            if len(a.comps) != len(b.comps):
+            if a.kinds != b.kinds:
                 return None
-            return RowsV([x if x.eq(y) else self.seq_ite(c, x, y, a.kind).t for x, y in zip(a.comps, b.comps)], a.kind)
+            return RowsV([x if x.eq(y) else self.seq_ite(c, x, y, a.kind).t for x, y in zip(a.comps, b.comps)], a.kind, a.kinds)
         if isinstance(a, MapV):
             if a.payload != b.payload:
                 return None
@@ -2344,6 +2348,14 @@ def _occurs(t, v):
     return False
 
 
+def rows_kinds(ty):
+    """'rows:4' -> four int columns; 'rows:int,optint,range' -> the listed column kinds"""
+    spec = ty[5:].strip()
+    if spec.isdigit():
+        return ["int"] * int(spec)
+    return [k.strip() for k in spec.split(",")]
+
+
 def split_types(s):
     out, depth, cur = [], 0, ""
     for ch in s:
@@ -2393,7 +2405,7 @@ def type_matches(ty, v):
     if ty.startswith("tupseq:"):
         return isinstance(v, TupSeqV) and len(v.comps) == len(split_types(ty[7:]))
     if ty.startswith("rows:"):
-        return isinstance(v, RowsV) and len(v.comps) == int(ty[5:])
+        return isinstance(v, RowsV) and v.kinds == rows_kinds(ty)
     if ty == "const":
         return True
     return False
